@@ -213,14 +213,9 @@ Fixpoint veq (nan_ok : bool) (a b : value) {struct a} : bool :=
       | _ => false
       end
   | VSet _ l =>
+      (* set == frozenset; the listed order is the iteration order and does not matter *)
       match b with
-      | VSet _ l' =>
-          (fix go (l l' : list value) : bool :=
-             match l, l' with
-             | [], [] => true
-             | x :: r, y :: r' => veq nan_ok x y && go r r'
-             | _, _ => false
-             end) l l'
+      | VSet _ l' => Nat.eqb (List.length l) (List.length l') && forallb (fun x => existsb (veq nan_ok x) l') l
       | _ => false
       end
   | VDict kv =>
@@ -293,13 +288,8 @@ Fixpoint value_eqb (a b : value) {struct a} : bool :=
   | VSet f l =>
       match b with
       | VSet f' l' =>
-          Bool.eqb f f' &&
-          (fix go (l l' : list value) : bool :=
-             match l, l' with
-             | [], [] => true
-             | x :: r, y :: r' => value_eqb x y && go r r'
-             | _, _ => false
-             end) l l'
+          Bool.eqb f f' && Nat.eqb (List.length l) (List.length l')
+          && forallb (fun x => existsb (value_eqb x) l') l
       | _ => false
       end
   | VDict kv =>
@@ -356,6 +346,7 @@ Inductive pyexpr :=
 | ECall (f : path) (args : list pyexpr) (kws : list (str * pyexpr))
 | EList (l : list pyexpr)
 | ETuple (l : list pyexpr)
+| ESet (l : list pyexpr)    (* {a, b} with at least one element *)
 | EDict (kv : list (pyexpr * pyexpr)).
 
 (* ---------------------------------------------------------------- environment *)
@@ -455,7 +446,12 @@ Definition builtin_call (n : str) (args : list value) (kws : list (str * value))
         | _ => None
         end
       else if str_eqb n (lit "set") then match args with [] => Some (VSet false []) | _ => None end
-      else if str_eqb n (lit "frozenset") then match args with [] => Some (VSet true []) | _ => None end
+      else if str_eqb n (lit "frozenset") then
+        match args with
+        | [] => Some (VSet true [])
+        | [VSet _ l] => Some (VSet true l)
+        | _ => None
+        end
       else None
   end.
 
@@ -518,6 +514,10 @@ Fixpoint dict_put (k v : value) (d : list (value * value)) : list (value * value
   end.
 Definition dict_of (ps : list (value * value)) : list (value * value) :=
   fold_left (fun d p => dict_put (fst p) (snd p) d) ps [].
+(* set display: an element equal to an earlier one is dropped *)
+Definition set_add (s : list value) (x : value) : list value :=
+  if existsb (fun y => veq false y x) s then s else s ++ [x].
+Definition set_of (vs : list value) : list value := fold_left set_add vs [].
 
 (* ---------------------------------------------------------------- the evaluator *)
 Fixpoint eval (W : world) (E : env) (e : pyexpr) {struct e} : option value :=
@@ -552,6 +552,15 @@ Fixpoint eval (W : world) (E : env) (e : pyexpr) {struct e} : option value :=
             | [] => Some []
             | x :: r => match eval W E x, go r with Some v, Some vs => Some (v :: vs) | _, _ => None end
             end) l)
+  | ESet l =>
+      match (fix go (l : list pyexpr) : option (list value) :=
+               match l with
+               | [] => Some []
+               | x :: r => match eval W E x, go r with Some v, Some vs => Some (v :: vs) | _, _ => None end
+               end) l with
+      | Some vs => if forallb (hashable W) vs then Some (VSet false (set_of vs)) else None
+      | None => None
+      end
   | EDict kv =>
       match (fix go (l : list (pyexpr * pyexpr)) : option (list (value * value)) :=
                match l with
@@ -592,6 +601,7 @@ Fixpoint heads (e : pyexpr) {struct e} : list str :=
             match l with [] => [] | (_, x) :: r => heads x ++ gk r end) kws
   | EList l => flat_map heads l
   | ETuple l => flat_map heads l
+  | ESet l => flat_map heads l
   | EDict kv =>
       (fix go (l : list (pyexpr * pyexpr)) : list str :=
          match l with [] => [] | (k, x) :: r => heads k ++ heads x ++ go r end) kv
